@@ -753,16 +753,33 @@ def mixed_radix(t):
     return {"off": off, "low": digits[0], "high": digits[1]}
 
 
-def strip_offset(t):
-    """x - c / saturating_sub(x, c) / wrapping_sub(x, c) -> (x, c); else (t, 0)"""
+def drop_floor(t, lo):
+    """t restricted to arguments >= lo: `max(x, c)` / `clamp(x, c, _)`-free forms with c <= lo are x itself there (both operand orders,
+    method or `cmp::max` spelling); applied only directly on an argument, which is where the lower bound is known"""
+    if lo is None:
+        return t
+    while t[0] == "call" and re.search(r"(::max|^std::cmp::max|^core::cmp::max)$", t[1]) and len(t[2]) == 2:
+        a, b = t[2]
+        if a[0] == "arg" and b[0] == "const" and b[1] is not None and b[1] <= lo:
+            t = a
+        elif b[0] == "arg" and a[0] == "const" and a[1] is not None and a[1] <= lo:
+            t = b
+        else:
+            break
+    return t
+
+
+def strip_offset(t, lo=None):
+    """x - c / saturating_sub(x, c) / wrapping_sub(x, c) -> (x, c); else (t, 0).  With lo (every argument is >= lo), a floor below it
+    on the argument (`x.max(c) - c`, c <= lo: the checked spelling of saturating_sub) is dropped."""
     if t[0] == "sub" and t[2][0] == "const":
-        return t[1], t[2][1]
+        return drop_floor(t[1], lo), t[2][1]
     if t[0] == "call" and re.search(r"::(saturating_sub|wrapping_sub)$", t[1]) and len(t[2]) == 2 and t[2][1][0] == "const":
-        return t[2][0], t[2][1][1]
+        return drop_floor(t[2][0], lo), t[2][1][1]
     if t[0] == "call" and re.search(r"::unwrap_or(_default)?$", t[1]) and t[2] and (len(t[2]) == 1 or t[2][1] == ("const", 0)):
         c = t[2][0]
         if c[0] == "call" and re.search(r"::checked_sub$", c[1]) and len(c[2]) == 2 and c[2][1][0] == "const":
-            return c[2][0], c[2][1][1]
+            return drop_floor(c[2][0], lo), c[2][1][1]
     return t, 0
 
 
@@ -863,7 +880,7 @@ def payload_rule(ctx, prog, refs, file_d, site_d, where_d, cmds):
     """(e) on MIR with helpers inlined: one Base64Encoder; it is fed once per item of the image's own iterator (a loop over
     `next()` or a closure given to for_each/try_for_each) with the whole `to_rgba()` array of that item; what is chunked is the
     encoder's finish(); bytes per pixel match the declared format; Shape::nth is row-major."""
-    db = prog.inlined(DRAW)
+    db = prog.inlined(DRAW, multi=True)      # a private helper shared with another caller (e.g. Serialize) is still expanded
     img_args = [l for l in range(1, db.arg_count + 1) if re.match(r"^&(\'\w+ )?image::Image$", db.local_ty(l))]
 
     def line(t):
@@ -1340,7 +1357,7 @@ def run(ctx):
                     size = int(c[1]["expr"]["v"])
         if size is None and chunk_recv is not None:
             # named / computed constant: rustc has evaluated the argument
-            ks = {op_const_int(t["args"][1]) for bb, t in (prog.inlined(DRAW) or bodies["draw"]).calls() if call_matches(t, r"\[T\]>::chunks$") and len(t["args"]) == 2}
+            ks = {op_const_int(t["args"][1]) for bb, t in (prog.inlined(DRAW, multi=True) or bodies["draw"]).calls() if call_matches(t, r"\[T\]>::chunks$") and len(t["args"]) == 2}
             if len(ks) == 1:
                 size = ks.pop()
         ctx.instance("CHUNK", {"loop": chunk_star.iter_text, "size": size})
@@ -1417,8 +1434,8 @@ def run(ctx):
             for a in t["args"]:
                 if a["k"] == "const" and "fn" in a["c"] and a["c"]["fn"]["path"].startswith("image::"):
                     inv_names.add(a["c"]["fn"]["path"])
-            if call_matches(t, r"^image::\w+$") and re.search(r"placement", callee_name(t)):
-                inv_names.add(callee_name(t))
+            if call_matches(t, r"^image::\w+$") and len(t["args"]) == 1:
+                inv_names.add(callee_name(t))       # whatever it is called: what makes it the inverse is `-> Position` (below)
     inv_names = {n for n in inv_names if prog.body(n) is not None and prog.body(n).local_ty(0) == "terminal::Position"}
     ctx.instance("PAIRING", {"placement_id": fwd.path if fwd else None, "inverse": sorted(inv_names)})
     mr = None
@@ -1460,7 +1477,7 @@ def run(ctx):
                     if not (lo[0] == "rem" and lo[2] == ("const", ld)):
                         bad = "%s must be (id - %d) %% %d, found %s" % (lf, mr["off"], ld, tree_text(lo))
                     else:
-                        x, off = strip_offset(lo[1])
+                        x, off = strip_offset(lo[1], mr["off"])
                         if off != mr["off"] or x != ("arg", 1):
                             bad = "%s must be (id - %d) %% %d, found %s" % (lf, mr["off"], ld, tree_text(lo))
                     if bad is None:
@@ -1470,7 +1487,7 @@ def run(ctx):
                         if not (h[0] == "div" and h[2] == ("const", hm)):
                             bad = "%s must be (id - %d) / %d, found %s" % (hf, mr["off"], hm, tree_text(hi))
                         else:
-                            x, off = strip_offset(h[1])
+                            x, off = strip_offset(h[1], mr["off"])
                             if off != mr["off"] or x != ("arg", 1):
                                 bad = "%s must be (id - %d) / %d, found %s" % (hf, mr["off"], hm, tree_text(hi))
                 if bad:
@@ -1506,7 +1523,7 @@ def run(ctx):
                           sites=[b.loc] if hasattr(b, "loc") else [])
 
     # ---------------- (d) transmit once ----------------------------------------------------------
-    draw_b = prog.inlined(DRAW) or bodies["draw"]      # bookkeeping moved into a private helper is still draw's
+    draw_b = prog.inlined(DRAW, multi=True) or bodies["draw"]      # bookkeeping moved into a private helper is still draw's
     # d1: transmit commands only under the Vacant valuation of the cache variable
     n_tx = 0
     bad_tx = []
